@@ -19,7 +19,7 @@ pub fn meta(tier: &str) -> CheckMeta {
 const TAGS_QUERY: &str = r#"
 ((call fn: (ident) @ignore) (#eq? @ignore "skip"))
 (
-  (comment)* @doc
+  [(comment) (block_comment)]* @doc
   .
   (fn_def name: (ident) @name) @definition.function
   (#strip! @doc "^#\\s*")
@@ -76,7 +76,7 @@ fn expected(language: &tree_sitter::Language, src: &[u8], xt: &XTree) -> Vec<Exp
                         let mut k = pos;
                         while k > 0 {
                             let c = sibs[k - 1];
-                            if kind(c) != "comment" { break; }
+                            if kind(c) != "comment" && kind(c) != "block_comment" { break; }
                             if xt.nodes[c].ep.row + 1 >= start_row { picked.push(c); start_row = xt.nodes[c].sp.row; k -= 1; } else { break; }
                         }
                         picked.reverse();
